@@ -34,7 +34,7 @@ fn gen_strings(rng: &mut Rng, n: usize, alpha: &[char]) -> Vec<String> {
     // a fixed corpus first: witnesses of past findings and grammar corner cases
     for s in ["", "C", "CC", "C(C)C", "C.C", "C1CC1", "C%12CC%12", "[13CH4]", "[C@@H](F)(Cl)Br", "[*@TB0]", "[*@TBx", "[G]", "[C+10]", "[C-10]", "[Cs]", "[C+5]", "[*@TB20]", "[*@OH3]", "[*@OH14]",
               "C11", "C1C1", "C12CC12", "C[Pt@SP1H](C)(C)C", "C1C[C@@]1(F)Cl", "C(", "C(C", "C()", "(C)", "C=", "C=1", "C.", "C..C", "C(.C)C", "C(=C)(#N)C", "C%1", "C%", "[", "[C", "[C:", "[C:x]", "[1000U]", "[*:1000]",
-              "C/C=C\\C", "F/C=C/F", "C1=CC=CC=C1", "c1ccccc1", "[nH]1cccc1", "C\u{e9}C", "\u{e9}", "[\u{e9}]", "\u{feff}CC", "\u{feff}C(", "\u{feff}", "C\u{feff}", " CC", "CC ", "\u{a0}C", "\u{200b}C", "\tC", "C\n", "[\u{b2}H]", "[C:\u{663}]", "[\u{ff11}\u{ff13}C]", "C[N:\u{bd}]", "[C:1\u{ff12}]", "C%\u{663}1", "C\u{b2}", "[C@TB\u{b2}]", "[C+\u{663}]", "[CH\u{b2}]", "C(.O)N", "C(.O)1CC1", "CC(C(.[Na+])O)=O", "[999U@TB20H9-15:999]", "[0C@OH30H0+15:0]", "[001C]", "C%99CC%99", "C%10CC%101", "C%011CC%01", "C%01CC1", "C9CC9", "C0CC0",
+              "C/C=C\\C", "F/C=C/F", "C1=CC=CC=C1", "c1ccccc1", "[nH]1cccc1", "C\u{e9}C", "\u{e9}", "[\u{e9}]", "\u{feff}CC", "\u{feff}C(", "\u{feff}", "C\u{feff}", " CC", "CC ", "\u{a0}C", "\u{200b}C", "\tC", "C\n", "[\u{b2}H]", "[C:\u{663}]", "[\u{ff11}\u{ff13}C]", "C[N:\u{bd}]", "[C:1\u{ff12}]", "C%\u{663}1", "C\u{b2}", "[C@TB\u{b2}]", "[C+\u{663}]", "[CH\u{b2}]", "C(.O)N", "C(.O)1CC1", "CC(C(.[Na+])O)=O", "C1.[C@H]1(F)Cl", "C1.[C@@H]1(F)Cl", "C1.[C@]1(F)(Cl)Br", "C(.[C@H]1(F)Cl)1", "C12.[C@H]1(F)2", "C1C.[C@H]1(F)Cl", "[C@H]1(F)(Cl).C1", "C1.C.[C@@H]1(F)Cl", "[C@H](F)(Cl)1.C1", "C1[C@H]1(F)Cl", "N1OC[C@H0]1(F)Cl", "N1OC[C@@H0]1(F)Cl", "C1CC[C@H0]1(F)Cl", "N[13C@@H](C)C(=O)O", "[13C@@H]", "[13C@H]", "[18F-]", "[13CH3:1]", "[2H+]", "[15NH2+]", "[131I-:5]", "[999U@TB20H9-15:999]", "[0C@OH30H0+15:0]", "[001C]", "C%99CC%99", "C%10CC%101", "C%011CC%01", "C%01CC1", "C9CC9", "C0CC0",
               "C(C(C(C(C(C(C(C(C(C(C(C))))))))))))", "C((C))", "C(C)(C)(C)(C)(C)(C)", "[C@TB1](F)(Cl)(Br)(I)C", "[C@@OH30](F)(Cl)(Br)(I)(C)N", "C1CC2CC3CC4CC5CC6CC7CC8CC9CC%10CC%11CC1C2C3C4C5C6C7C8C9C%10C%11",
               "F/C=C/C=C\\C", "C/1=C/CCCC1", "[nH]1cccc1", "c1ccccc1-c2ccccc2", "C=1CCCCC=1", "C=1CCCCC1", "C1CCCCC=1", "C-1CCCCC=1", "C/1CCCCC\\1", "C/1CCCCC/1", "C(C(C(C)))C", "C1.C1", "C1(C)", "*", "[*]", "[*H]", "[HH1]", "Cl", "Br", "B", "Bx", "At", "Ts", "Tx", "A"] { v.push(s.to_string()) }
     while v.len() < n {
@@ -122,7 +122,8 @@ fn pool_case(hits: &[(usize, usize)]) -> String {
         Err(_) => { // replay until the panic to keep the prefix
             let mut p = JoinPool::new();
             for (a, b) in hits { let (a, b) = (*a, *b); let rr = std::panic::catch_unwind(std::panic::AssertUnwindSafe(|| p.hit(a, b))); match rr { Ok(x) => out.push(format!("Some {}", coq_rnum(&x))), Err(_) => { out.push("None".into()); break } } } } }
-    format!("PC [{}] [{}]", hits.iter().map(|(a, b)| format!("({}, {})%nat", a, b)).collect::<Vec<_>>().join("; "), out.join("; "))
+    let nat = |x: usize| if x > 2000 { format!("N.to_nat {}%N", x) } else { format!("{}%nat", x) };
+    format!("PC [{}] [{}]", hits.iter().map(|(a, b)| format!("({}, {})", nat(*a), nat(*b))).collect::<Vec<_>>().join("; "), out.join("; "))
 }
 
 // ------------------------------------------------------------------ atom suite (valence) and kind suite (display, read_atom, invert, debracket)
@@ -132,11 +133,12 @@ fn atom_case(a: &Atom) -> String {
     let f = |r: Result<u8, String>| match r { Ok(v) => format!("(Some {}%N)", v), Err(_) => "None".into() };
     format!("AC {} {} {} {} [{}]%N", coq_atom(a), f(sv), f(sh), a.is_aromatic(), a.kind.targets().iter().map(|t| t.to_string()).collect::<Vec<_>>().join("; "))
 }
-fn kind_case(k: &AtomKind, rng: &mut Rng, alpha: &[char]) -> String {
+fn kind_case(k: &AtomKind, rng: &mut Rng, alpha: &[char]) -> String { kind_case_with(k, rng, alpha, false) }
+fn kind_case_with(k: &AtomKind, rng: &mut Rng, alpha: &[char], exact: bool) -> String {
     let text = k.to_string();
     // read_atom on the text followed by a random tail, and on a random string
     let tail: String = (0..rng.below(3)).map(|_| *rng.pick(alpha)).collect();
-    let probe = if rng.chance(3, 4) { format!("{}{}", text, tail) } else { (0..rng.below(7)).map(|_| *rng.pick(alpha)).collect() };
+    let probe = if exact { text.clone() } else if rng.chance(3, 4) { format!("{}{}", text, tail) } else { (0..rng.below(7)).map(|_| *rng.pick(alpha)).collect() };
     let mut sc = Scanner::new(&probe);
     let r = guarded(|| verif_read_atom(&mut sc));
     let ra = match r { Err(_) => "TPanic".to_string(), Ok(Ok(Some(k2))) => format!("(TOk {} {})", coq_kind(&k2), sc.cursor()), Ok(Ok(None)) => "TNo".into(),
@@ -182,7 +184,7 @@ fn main() {
                 let big = count > 5000;
                 let g = match rng.below(14) { 0..=4 => { bump("wf"); gen_wf_graph(&mut rng, 9) } 5 => { bump("wf-large"); gen_wf_graph(&mut rng, if big { 48 } else { 20 }) }
                     10 => { bump("ladder"); let k = if big && rng.chance(1, 8) { 20 + rng.below(85) } else { 2 + rng.below(14) }; gen_ladder(&mut rng, k) }
-                    11 => { bump("hub"); let d = 3 + rng.below(6); gen_hub(&mut rng, d) }
+                    11 => { bump("hub"); let d = if rng.chance(1, 6) { 20 + rng.below(50) } else { 3 + rng.below(6) }; gen_hub(&mut rng, d) }
                     12 => { let k = 2 + rng.below(6); let mut g = gen_ladder(&mut rng, k); let m = mutate_graph(&mut rng, &mut g); bump(&format!("ladder-mutant-{}", m)); g }
                     13 => { let d = 3 + rng.below(5); let mut g = gen_hub(&mut rng, d); let m = mutate_graph(&mut rng, &mut g); bump(&format!("hub-mutant-{}", m)); g }
                     6..=8 => { let mut g = gen_wf_graph(&mut rng, 7); let m = mutate_graph(&mut rng, &mut g); bump(&format!("mutant-{}", m)); g }
@@ -199,7 +201,17 @@ fn main() {
             cases.push(pool_case(&(0..110).map(|i| (i, i + 1000)).collect::<Vec<_>>()));
             // many sequential rings
             cases.push(pool_case(&(0..300).flat_map(|i| vec![(i, i + 1), (i + 1, i)]).collect::<Vec<_>>()));
+            // atom ids beyond 16 and 32 bits: the pair key must not truncate or pack them
+            cases.push(pool_case(&[(5, 1), (65541, 0), (1, 5), (0, 65541)]));
+            cases.push(pool_case(&[(0, 65538), (2, 65536), (65538, 0), (65536, 2)]));
+            cases.push(pool_case(&[(1, 2), (65537, 65538), (131073, 131074), (2, 1), (65538, 65537), (131074, 131073)]));
+            // fill to 99 open, release one, reopen; then release all and reopen
+            { let mut v: Vec<(usize, usize)> = (0..99).map(|i| (i, i + 500)).collect(); v.push((7, 507)); v.push((1000, 1001)); v.push((1000, 1001)); for i in 0..99 { if i != 7 { v.push((i + 500, i)) } } v.push((3, 4)); v.push((5, 6)); cases.push(pool_case(&v)); }
             while cases.len() < count {
+                if rng.chance(1, 10) { // sparse huge ids
+                    let big = [0usize, 1, 2, 5, 65535, 65536, 65537, 65541, 131072, 131073, 196608, 196613];
+                    let len = rng.below(16); let seq: Vec<(usize, usize)> = (0..len).map(|_| { let a = *rng.pick(&big); let mut b = *rng.pick(&big); if a == b { b = a + 7 } (a, b) }).collect();
+                    cases.push(pool_case(&seq)); continue }
                 // unordered pairs over a small id range so that many distinct pairs (and both orientations) are open at once
                 let ids = match rng.below(4) { 0 => 4, 1 => 8, 2 => 12, _ => 30 };
                 let len = rng.below(40);
@@ -211,7 +223,10 @@ fn main() {
             let a = Atom { kind, bonds: (0..deg).map(|i| Bond::new(if deg > 40 { BondKind::Single } else { purr_verif_harness::enums_gen::all_bond_kind().swap_remove(rng.below(8)) }, i + 1)).collect() };
             bump(if deg > 200 { "degree>200" } else if deg > 6 { "degree7-40" } else { "degree<=6" });
             cases.push(atom_case(&a)) },
-        "kind" => while cases.len() < count { let k = if rng.chance(2, 3) { gen_bracket(&mut rng) } else { gen_kind(&mut rng) }; cases.push(kind_case(&k, &mut rng, &alpha)) },
+        "kind" => { let (total, bad, sample) = kind_sweep();
+            dist.insert("sweep_kinds_written_and_read_back".into(), total); dist.insert("sweep_offenders".into(), bad.len());
+            for k in bad.iter().chain(sample.iter()) { cases.push(kind_case_with(k, &mut rng, &alpha, true)) }
+            while cases.len() < count { let k = if rng.chance(2, 3) { gen_bracket(&mut rng) } else { gen_kind(&mut rng) }; cases.push(kind_case(&k, &mut rng, &alpha)) } },
         _ => panic!("unknown suite"),
     }
     let per = (cases.len() + shards - 1) / shards.max(1);
